@@ -1,6 +1,6 @@
 (* C20 property theorems: statements closed by [exact lemma] + Print Assumptions. *)
 From V Require Import Common.Base C20.Protocol C20.ProtocolProofs C20.CtxLTS C20.CtxSpec C20.CtxProofs
-  C20.CtxMonA C20.CtxMonB C20.CtxMonC C20.CtxStale C20.PluginSpec C20.Plugin C20.PluginProofs.
+  C20.CtxMonA C20.CtxMonB C20.CtxMonC C20.CtxStale C20.ServiceSpec C20.ServiceLTS C20.ServiceProofs C20.PluginSpec C20.Plugin C20.PluginProofs.
 
 (* writeUint32 / readUint32: little-endian round trip modulo 2^32, any trailing bytes *)
 Theorem uint32_roundtrip : forall n r, read32 (le32 n ++ r) = Some (n mod 4294967296, r).
@@ -116,3 +116,74 @@ Theorem load_once_per_identity : forall nS nE tr,
   build_trace_prefix_ok nS nE tr = true -> NoDup (loads tr).
 Proof. exact accepted_loads_once. Qed.
 Print Assumptions load_once_per_identity.
+
+(* ---- the service layer (cmd/esbuild/service.go) as an LTS over packets ---- *)
+
+(* every run of the service model - any interleaving of arriving requests,
+   handler goroutines, callbacks to the client, stdin closing, exit - produces
+   a packet trace accepted by svc_trace_ok, the checker that Coq also evaluates
+   on every transcript recorded from the real `esbuild --service` process *)
+Theorem service_trace_sound : forall acts s' tr, srun sst0 acts = Some (s', tr) -> svc_trace_ok tr = true.
+Proof. exact ServiceProofs.service_trace_sound. Qed.
+Print Assumptions service_trace_sound.
+
+(* in every prefix of an accepted trace, no request id has more responses than requests *)
+Theorem no_response_without_request : forall pre post id,
+  svc_trace_ok (pre ++ post) = true -> (n_sresp id pre <= n_creq id pre)%nat.
+Proof. exact accepted_no_response_without_request. Qed.
+Print Assumptions no_response_without_request.
+
+(* a request id is outstanding at most once ... *)
+Theorem request_outstanding_at_most_once : forall pre post id,
+  svc_trace_ok (pre ++ post) = true -> (n_creq id pre <= n_sresp id pre + 1)%nat.
+Proof. exact accepted_at_most_one_outstanding. Qed.
+Print Assumptions request_outstanding_at_most_once.
+
+(* ... and when the process exits every request has been answered: together,
+   exactly one response per request.  For all interleavings of the model: *)
+Theorem every_request_answered_once : forall acts s' pre post id,
+  srun sst0 acts = Some (s', pre ++ EExit :: post) ->
+  n_sresp id pre = n_creq id pre /\ (forall p1 p2, pre = p1 ++ p2 -> (n_sresp id p1 <= n_creq id p1 <= n_sresp id p1 + 1)%nat).
+Proof.
+  intros acts s' pre post id H. pose proof (ServiceProofs.service_trace_sound _ _ _ H) as A. split.
+  - exact (accepted_all_answered_at_exit pre post id A).
+  - intros p1 p2 E. subst pre. rewrite <- app_assoc in A. split.
+    + exact (accepted_no_response_without_request p1 _ id A).
+    + exact (accepted_at_most_one_outstanding p1 _ id A).
+Qed.
+Print Assumptions every_request_answered_once.
+
+(* Cancel / Dispose over the service.  Full statement: "the response to a
+   cancel or dispose request is sent only when no build of that context is
+   running".  It is FALSE of the faithful model (and of the real service: the
+   two witnesses are the directed transcripts replayed on every run, recorded
+   as known findings C20-service-second-dispose-answered-at-once and
+   C20-service-cancel-after-dispose-answered-at-once): *)
+Theorem service_dispose_waits_for_build_refuted :
+  exists acts s tr s' oe h k live,
+    srun sst0 acts = Some (s, tr) /\ find_h 4 (s_hs s) = Some h /\ h_kind h = HDispose k live /\
+    sexec s (SRespond 4) = Some (s', oe) /\ oe = Some (ESResp 4) /\ ctx_building k (s_cs s) = true.
+Proof. exact dispose_answers_after_build_end_refuted. Qed.
+Print Assumptions service_dispose_waits_for_build_refuted.
+
+Theorem service_cancel_waits_for_build_refuted :
+  exists acts s tr s' oe h k live,
+    srun sst0 acts = Some (s, tr) /\ find_h 4 (s_hs s) = Some h /\ h_kind h = HCancel k live /\
+    sexec s (SRespond 4) = Some (s', oe) /\ oe = Some (ESResp 4) /\ ctx_building k (s_cs s) = true.
+Proof. exact cancel_answers_after_build_end_refuted. Qed.
+Print Assumptions service_cancel_waits_for_build_refuted.
+
+(* what does hold: the dispose (cancel) that found the context alive answers
+   only when no build of the context is running *)
+Theorem service_dispose_waits_for_build_partial : forall s id h k s' oe,
+  find_h id (s_hs s) = Some h -> h_kind h = HDispose k true ->
+  sexec s (SRespond id) = Some (s', oe) ->
+  ctx_building k (s_cs s) = false /\ rebuilds_of k (s_hs s) = false.
+Proof. exact first_dispose_waits. Qed.
+Print Assumptions service_dispose_waits_for_build_partial.
+
+Theorem service_cancel_waits_for_build_partial : forall s id h k s' oe,
+  find_h id (s_hs s) = Some h -> h_kind h = HCancel k true ->
+  sexec s (SRespond id) = Some (s', oe) -> ctx_building k (s_cs s) = false.
+Proof. exact live_cancel_waits. Qed.
+Print Assumptions service_cancel_waits_for_build_partial.
